@@ -939,11 +939,15 @@ type kickAction struct {
 
 var errEmptyId = group.ProtocolError("empty id")
 
+// remove and addnew don't modify l, which may be shared with other clients.
+
 func remove(v string, l []string) []string {
 	for i, w := range l {
 		if v == w {
-			l = append(l[:i], l[i+1:]...)
-			return l
+			r := make([]string, 0, len(l)-1)
+			r = append(r, l[:i]...)
+			r = append(r, l[i+1:]...)
+			return r
 		}
 	}
 	return l
@@ -953,8 +957,7 @@ func addnew(v string, l []string) []string {
 	if slices.Contains(l, v) {
 		return l
 	}
-	l = append(l, v)
-	return l
+	return append(l[:len(l):len(l)], v)
 }
 
 func clientLoop(c *webClient, ws *websocket.Conn, versionError bool) error {
